@@ -37,6 +37,10 @@ def typed(v, typing: str):
     """Render an integer grid value in another Python type the API documents as acceptable."""
     if typing == "float":
         return float(v)
+    if typing == "frac":
+        # a float with a fractional part whose integer part is the grid value (quantities the host classes truncate with int());
+        # only inside the documented range, so that validity is the grid value's
+        return float(v) + 0.5 if isinstance(v, int) and 0 <= v < 255 else float(v)
     if typing == "bool" and v in (0, 1):
         return bool(v)
     return v
@@ -62,7 +66,9 @@ def led_host_trace(history: list[dict], typing: str = "int") -> list[dict]:
             act = c["act"]
             # floats only where the API takes a quantity (brightness, durations); counts and steps stay ints
             floatable = {"set_brightness": [0], "blink": [0], "fade_in": [1], "fade_out": [1], "flash_pattern": [0]}.get(act, [])
-            a = [typed(x, typing) if (typing != "float" or j in floatable) else x for j, x in enumerate(c["a"])]
+            a = [typed(x, typing) if (typing not in ("float", "frac") or j in floatable) else x for j, x in enumerate(c["a"])]
+            if typing == "frac" and act != "set_brightness":
+                a = [typed(x, "float") if j in floatable else x for j, x in enumerate(c["a"])]      # fractions only for the brightness level
             res = "ok"
             try:
                 if act in ("on", "off", "toggle"):
